@@ -364,6 +364,12 @@ fn compute_default_blues(shaper: &Shaper, coords: &[F2Dot14], style: &StyleClass
                             if (best_y - best_contour[first].y as i32).abs() > height_threshold {
                                 // vertical distance too large
                                 hit = false;
+                                // The original code is a do-while loop, so
+                                // `continue` there still evaluates the exit
+                                // condition
+                                if last == segment_first {
+                                    break;
+                                }
                                 continue;
                             }
                             let dist =
